@@ -151,10 +151,10 @@ U.fn(P, 'PreProcessor::eat_until_else_or_endif', requires=['old(self).pwf()'],
      ensures=['final(self).same_in(old(self))', 'final(self).same_defs(old(self))',
               C('old(self).popen() >= 1 ==> forall|f: Frame| f.taken == f.seen_else ==> final(self).off_result(ret, #[trigger] %s, old(self).popen())' % RO,
                 name='the depth-counting skip ends where the reference leaves the disabled region (inside an open conditional; a stray #else is malformed input)')],
-     loops={0: dict(invariant=['self.same_in(old(self))', 'self.same_defs(old(self))', 'self.popen() == old(self).popen()', 'depth as int >= 1',
+     loops={0: dict(invariant=['self.same_in(old(self))', 'self.same_defs(old(self))', C('self.popen() == old(self).popen()', name='skipping disabled text does not open or close conditionals of the enabled text'), 'depth as int >= 1',
                                'self.pi() <= self.ptoks().len()', 'old(self).pi() <= self.pi()',
                                '6 * (depth as int - 1) <= (self.poffs())(self.pi()) - (self.poffs())(old(self).pi())',
-                               C('forall|f: Frame| f.taken == f.seen_else ==> #[trigger] run_off(self.ptoks(), old(self).pi(), 0, f) == run_off(self.ptoks(), self.pi(), (depth - 1) as nat, f)')],
+                               C('forall|f: Frame| f.taken == f.seen_else ==> #[trigger] run_off(self.ptoks(), old(self).pi(), 0, f) == run_off(self.ptoks(), self.pi(), (depth - 1) as nat, f)', name='the depth counter mirrors the nesting of the disabled text')],
                     decreases='self.ptoks().len() - self.pi()',
                     body_prologue='proof { self.token_stream.lemma_swf(); lemma_offs_mono(self.poffs(), self.ptoks().len(), self.pi(), self.ptoks().len()); lemma_offs_mono(self.poffs(), self.ptoks().len(), old(self).pi(), self.pi()); }')},
      prologue='proof { self.token_stream.lemma_swf(); }')
